@@ -209,6 +209,42 @@ func c15Units(tier string, seed int64) []Unit {
 		nfree = 600
 	}
 	units = append(units, freeRunUnit("C15", nfree))
+	// an immutable specification also when it is a broken one: a Deferred whose function panics (it builds a
+	// generator with invalid arguments) behaves the same at every use - a check that shares it reports what it
+	// reports alone, and the engine's own replay of the failing case sees the same failure (never "flaky")
+	units = append(units, Unit{Name: "C15/Deferred-whose-function-panics/sequential-sharing", Run: func(c *Ctx) {
+		mk := func() *rapid.Generator[string] {
+			return rapid.Deferred(func() *rapid.Generator[string] { return rapid.StringMatching(`[a-`) })
+		}
+		report := func(g *rapid.Generator[string], name string) string {
+			prog := &LazyProgram{Name: name, Base: func(string, string) Beh { return BPass }, Body: func(t *rapid.T, e *Env) {
+				e.cur.Draws = g.Draw(t, "s")
+			}}
+			env := NewEnv(nil, prog.Base)
+			log := RunCheck(prog, env, Config{Checks: 3, Seed: 7, ShrinkMS: 3, NoFailFile: true, Name: "TestC15Deferred"})
+			c.R.Evals++
+			c.R.States++
+			c.R.Transitions += int64(len(env.Invs))
+			v := log.Verdict()
+			first := v.ErrText
+			if i := strings.Index(first, "\n"); i >= 0 {
+				first = first[:i]
+			}
+			return v.Class + ": " + first
+		}
+		alone := report(mk(), "alone")
+		shared := mk()
+		firstUser := report(shared, "first user")
+		secondUser := report(shared, "second user")
+		c.Outcome(alone, true)
+		replay := map[string]any{"engine": "check", "generator": "Deferred(StringMatching(invalid))"}
+		if strings.HasPrefix(alone, "flaky") || strings.HasPrefix(firstUser, "flaky") {
+			c.Violate(Violation{Sig: "C15 broken-Deferred-changes-between-uses what=flaky-within-one-check", Detail: fmt.Sprintf("a check drawing from a Deferred whose function always panics reports %q", firstUser), Replay: replay})
+		}
+		if secondUser != alone {
+			c.Violate(Violation{Sig: "C15 broken-Deferred-changes-between-uses what=second-check-differs", Detail: fmt.Sprintf("alone a check reports %q; as the second user of the shared generator value it reports %q", alone, secondUser), Replay: replay})
+		}
+	}})
 	return units
 }
 
